@@ -136,7 +136,9 @@ func transcriptU(session int, desc string, b *gabi.CredentialBuilder, p *gabi.Pr
 }
 
 // the oracles of C07 over all transcripts of one history
-func c07Oracles(s *Suite, hist string, ts []*transcript) {
+func c07Oracles(s *Suite, hist string, ts []*transcript) { proofOracles(s, "C07", hist, ts) }
+
+func proofOracles(s *Suite, prop string, hist string, ts []*transcript) {
 	// (1) the two-transcript extractor, literally: for two responses to the same hidden value under
 	//     different challenges, (s1 - s2) / (c1 - c2) must not be that value
 	for i := 0; i < len(ts); i++ {
@@ -154,7 +156,7 @@ func c07Oracles(s *Suite, hist string, ts []*transcript) {
 					s.Dist["extractor-pairs"]++
 					ds := new(gbig.Int).Sub(ea.resp, eb.resp)
 					if ds.Cmp(new(gbig.Int).Mul(dc, ea.secret)) == 0 {
-						s.Violate("C07:extractor-recovers:"+kindOfLabel(ea.label), fmt.Sprintf("two-transcript extractor recovers %s from proofs %s and %s", ea.label, a.desc, b.desc), L{hist, a.desc, b.desc, ea.label})
+						s.Violate(prop+":extractor-recovers:"+kindOfLabel(ea.label), fmt.Sprintf("two-transcript extractor recovers %s from proofs %s and %s", ea.label, a.desc, b.desc), L{hist, a.desc, b.desc, ea.label})
 					}
 				}
 			}
@@ -168,7 +170,7 @@ func c07Oracles(s *Suite, hist string, ts []*transcript) {
 		}
 		k := r.String()
 		if o, ok := seen[k]; ok && o.session != t.session {
-			s.Violate("C07:randomizer-reused:"+kindOfLabel(what), fmt.Sprintf("the randomizer behind %s of proof %s was already used by proof %s", what, t.desc, o.desc), L{hist, t.desc, o.desc, what})
+			s.Violate(prop+":randomizer-reused:"+kindOfLabel(what), fmt.Sprintf("the randomizer behind %s of proof %s was already used by proof %s", what, t.desc, o.desc), L{hist, t.desc, o.desc, what})
 		}
 		seen[k] = t
 	}
@@ -190,7 +192,7 @@ func c07Oracles(s *Suite, hist string, ts []*transcript) {
 					continue
 				}
 				if o, ok := m[x.String()]; ok {
-					s.Violate("C07:repeated:"+what, fmt.Sprintf("%s of proof %s equals that of proof %s", what, t.desc, o.desc), L{hist, t.desc, o.desc, what})
+					s.Violate(prop+":repeated:"+what, fmt.Sprintf("%s of proof %s equals that of proof %s", what, t.desc, o.desc), L{hist, t.desc, o.desc, what})
 				}
 				m[x.String()] = t
 			}
@@ -207,7 +209,7 @@ func c07Oracles(s *Suite, hist string, ts []*transcript) {
 			continue
 		}
 		if o, ok := bs[t.builder]; ok {
-			s.Violate("C07:builder-consumed-twice", fmt.Sprintf("proofs %s and %s were made from the same non-revocation builder", t.desc, o.desc), L{hist, t.desc, o.desc})
+			s.Violate(prop+":builder-consumed-twice", fmt.Sprintf("proofs %s and %s were made from the same non-revocation builder", t.desc, o.desc), L{hist, t.desc, o.desc})
 		}
 		bs[t.builder] = t
 	}
